@@ -723,7 +723,16 @@ func (st *c03state) wsend(bufs [][]byte, acts []c03wact, chunks []int) string {
 	go func() {
 		for i, buf := range bufs {
 			f.hdr = true
-			_, err := snd.VerifSendRaw(buf)
+			var err error
+			if v, cl := c03unmarshal(buf); cl == "ok" {
+				if m, merr := network.Marshal(v); merr == nil && bytes.Equal(m, buf) {
+					// a marshalled value goes through the whole of TCPConn.Send
+					_, err = snd.Send(v)
+					results[i] = err == nil
+					continue
+				}
+			}
+			_, err = snd.VerifSendRaw(buf)
 			results[i] = err == nil
 		}
 		f.Close()
@@ -1212,6 +1221,41 @@ func c03genR4(g *c03g, emit func(class string, ops ...string)) {
 			"c03 procs "+c03joinHex(sub),
 			fmt.Sprintf("c03 loop %s - %s", c03joinHex(frames), h.Ints(g.chunks(g.stream(frames, nil)))))
 	}
+	// ---- a connection that is reset (a network error that is no time-out) inside or between frames
+	for i := 0; i < c.Pick(150, 2000); i++ {
+		var frames [][]byte
+		for k := 1 + r.Intn(4); k > 0; k-- {
+			b, _ := g.valueBuf()
+			if r.Intn(6) == 0 {
+				b = append(c03bytes(r, 16), c03bytes(r, r.Intn(10))...)
+			}
+			frames = append(frames, b)
+		}
+		total := g.stream(frames, nil)
+		at := r.Intn(total + 1)
+		if r.Intn(3) == 0 { // exactly between two frames
+			at = 0
+			for _, f := range frames[:r.Intn(len(frames)+1)] {
+				at += 4 + len(f)
+			}
+		}
+		var pre []int
+		for s := 0; s < at; {
+			k := 1 + r.Intn(at-s)
+			if r.Intn(3) == 0 {
+				k = 1
+			}
+			pre = append(pre, k)
+			s += k
+		}
+		bad, usable := g.table(frames)
+		if !usable {
+			continue
+		}
+		emit("loop-reset",
+			fmt.Sprintf("c03 cfg 4096 %s %s", reg, c03joinHex(bad)),
+			fmt.Sprintf("c03 loop %s - %s!", c03joinHex(frames), h.Ints(pre)))
+	}
 	// ---- the in-memory transport fed with valid, refused and arbitrary buffers; sends after the close
 	for i := 0; i < c.Pick(250, 4000); i++ {
 		var frames [][]byte
@@ -1272,7 +1316,7 @@ func c03genR4(g *c03g, emit func(class string, ops ...string)) {
 		"c03 wsend 0102030405,0607 a4,a2,a1,f2 2,2")
 	// ---- the sending side: partial and failing writes of every shape, then any segmentation
 	for i := 0; i < c.Pick(500, 8000); i++ {
-		max := []int{1, 8, 64, 300}[r.Intn(4)]
+		max := []int{1, 8, 64, 300, 4096}[r.Intn(5)]
 		ops := []string{fmt.Sprintf("c03 cfg %d %s -", max, reg)}
 		for j := 1 + r.Intn(3); j > 0; j-- {
 			var bufs [][]byte
@@ -1282,7 +1326,12 @@ func c03genR4(g *c03g, emit func(class string, ops ...string)) {
 				if r.Intn(5) == 0 {
 					n = 0
 				}
-				bufs = append(bufs, c03bytes(r, n))
+				b := c03bytes(r, n)
+				if max == 4096 {
+					b, _ = g.valueBuf() // marshalled values: through TCPConn.Send
+					n = len(b)
+				}
+				bufs = append(bufs, b)
 				total += 4 + n
 			}
 			var acts []string
